@@ -92,6 +92,9 @@ enum Scenario {
     /// damaged file then stands under the very name the acquired key is stored under)
     LocalKeyTruncatedHostReissues,
     LocalKeyEmptyHostReissues,
+    /// the local file of the latched key cannot even be read as text: bytes that are not UTF-8 / a directory under its name
+    LocalKeyNotUtf8,
+    LocalKeyIsDirectory,
 }
 
 #[derive(Default)]
@@ -318,6 +321,17 @@ fn prepare(slot: &Slot, sc: Scenario, fault: Fault, tag: u64) {
             s.latched = Some(i);
             write_key(&slot.key_dir, &s.issued[i].0, &s.issued[i].1, Some(""));
         }
+        Scenario::LocalKeyNotUtf8 => {
+            let i = mk(&mut s);
+            s.latched = Some(i);
+            std::fs::create_dir_all(&slot.key_dir).unwrap();
+            std::fs::write(format!("{}/{}.key", slot.key_dir, s.issued[i].0), [0xffu8, 0xfe, 0x00, 0xc3, 0x28, b'{', 0x80]).unwrap();
+        }
+        Scenario::LocalKeyIsDirectory => {
+            let i = mk(&mut s);
+            s.latched = Some(i);
+            std::fs::create_dir_all(format!("{}/{}.key", slot.key_dir, s.issued[i].0)).unwrap();
+        }
         Scenario::LocalKeyTruncatedHostReissues | Scenario::LocalKeyEmptyHostReissues => {
             let i = mk(&mut s);
             s.latched = Some(i);
@@ -428,8 +442,9 @@ fn inspect_store(slot: &Slot) -> Vec<(String, String)> {
             let name = e.file_name().to_string_lossy().to_string();
             if let Some(stem) = name.strip_suffix(".key") {
                 // pre-existing unreadable files of the scenario are not the agent's doing
-                let txt = std::fs::read_to_string(e.path()).unwrap_or_default();
-                if s.initial_files.get(&name).map(|b| b.as_slice()) == Some(txt.as_bytes()) {
+                let raw = std::fs::read(e.path()).unwrap_or_default();
+                let txt = String::from_utf8(raw.clone()).unwrap_or_default();
+                if s.initial_files.get(&name).map(|b| b.as_slice()) == Some(raw.as_slice()) {
                     continue; // exactly what the scenario put there (e.g. the unreadable local key)
                 }
                 match serde_json::from_str::<Value>(&txt) {
@@ -479,7 +494,7 @@ fn main() {
         })
         .collect();
 
-    let scenarios: Vec<Scenario> = vec![Scenario::FreshLatch, Scenario::RestartWithKey, Scenario::RestartWithKeyNoIncarnation, Scenario::RestartWithKeyUpperCaseGuid, Scenario::RotationNoGuid, Scenario::RotationOtherGuid, Scenario::LocalKeyTruncated, Scenario::LocalKeyEmpty, Scenario::LocalKeyTruncatedHostReissues, Scenario::LocalKeyEmptyHostReissues];
+    let scenarios: Vec<Scenario> = vec![Scenario::FreshLatch, Scenario::RestartWithKey, Scenario::RestartWithKeyNoIncarnation, Scenario::RestartWithKeyUpperCaseGuid, Scenario::RotationNoGuid, Scenario::RotationOtherGuid, Scenario::LocalKeyTruncated, Scenario::LocalKeyEmpty, Scenario::LocalKeyTruncatedHostReissues, Scenario::LocalKeyEmptyHostReissues, Scenario::LocalKeyNotUtf8, Scenario::LocalKeyIsDirectory];
     let faults: Vec<Fault> = if thorough {
         vec![Fault::None, Fault::Status500, Fault::StatusMalformed, Fault::Acquire500, Fault::AcquireMalformed, Fault::Attest500, Fault::AttestLatchThenReset, Fault::AttestResetBeforeLatch]
     } else {
@@ -641,7 +656,7 @@ fn main() {
                 if let Some(i) = latched_before {
                     // the latched key was present and complete (checked above); it must be found and used without a new acquisition
                     let file_ok = std::fs::read_to_string(format!("{}/{}.key", slot.key_dir, s.issued[i].0)).is_ok();
-                    if file_ok && s.acquires != acquires_before && !matches!(sc, Scenario::LocalKeyTruncated | Scenario::LocalKeyEmpty | Scenario::LocalKeyTruncatedHostReissues | Scenario::LocalKeyEmptyHostReissues | Scenario::RotationOtherGuid) {
+                    if file_ok && s.acquires != acquires_before && !matches!(sc, Scenario::LocalKeyTruncated | Scenario::LocalKeyEmpty | Scenario::LocalKeyTruncatedHostReissues | Scenario::LocalKeyEmptyHostReissues | Scenario::LocalKeyNotUtf8 | Scenario::LocalKeyIsDirectory | Scenario::RotationOtherGuid) {
                         out.lock().unwrap().push((format!("latched-key-not-reused:{:?}:{:?}", sc, f), format!("after a kill at {kname}#{k} the restarted agent requested a new key although the host's latched key was in the store (acquires {} -> {})", acquires_before, s.acquires), case.clone()));
                     }
                 }
